@@ -24,19 +24,20 @@ import (
 )
 
 type c18Msg struct {
-	Kind   string `json:"kind"` // ra rs ns na
-	RA     *vRA   `json:"ra,omitempty"`
-	From   string `json:"from"`
-	Zone   string `json:"zone,omitempty"`
-	AtNS   int64  `json:"at_ns"`   // receipt time relative to the start
-	Extra  []vOpt `json:"-"`
+	Kind  string `json:"kind"` // ra rs ns na
+	RA    *vRA   `json:"ra,omitempty"`
+	From  string `json:"from"`
+	Zone  string `json:"zone,omitempty"`
+	AtNS  int64  `json:"at_ns"` // receipt time relative to the start
+	Extra []vOpt `json:"-"`
 }
 
 type c18Case struct {
-	Msgs     []c18Msg `json:"msgs"`
-	StartS   int64    `json:"start_unix_s"` // value path: wall clock at start
-	StartNS  int64    `json:"start_ns"`
-	RunPath  bool     `json:"run_path"`
+	Msgs       []c18Msg `json:"msgs"`
+	StartS     int64    `json:"start_unix_s"` // value path: wall clock at start
+	StartNS    int64    `json:"start_ns"`
+	RunPath    bool     `json:"run_path"`
+	ConsumerNS int64    `json:"consumer_ns,omitempty"` // run path: the OnMessage consumer is slow
 }
 
 type c18Model map[string]map[string]float64
@@ -173,7 +174,7 @@ func c18Prop(t *testing.T, k *verifkit.Kit) func(c c18Case) error {
 		if len(c.Msgs) > 0 {
 			last = c.Msgs[len(c.Msgs)-1].AtNS
 		}
-		r := runMonitor(t, monScenario{Events: evs, StopNS: last + int64(time.Second), Verbose: true})
+		r := runMonitor(t, monScenario{Events: evs, StopNS: last + int64(time.Second) + int64(len(evs)+1)*c.ConsumerNS, Verbose: true, ConsumerNS: c.ConsumerNS})
 		if r.Panic != nil || r.W == nil {
 			return verifkit.Violf("panic", "panic in bubble: %v", r.Panic)
 		}
@@ -201,12 +202,16 @@ func c18Prop(t *testing.T, k *verifkit.Kit) func(c c18Case) error {
 }
 
 var c18Hosts = []string{"fe80::1", "fe80::2", "2001:db8::1", "fe80::aaaa:bbbb"}
+
 // several prefixes share an address and differ only in length
 var c18Prefixes = []string{"2001:db8:1::/64", "2001:db8:1::/48", "2001:db8:2::/64", "2001:db8::/32", "2001:db8::/48", "2001:db8::/64", "fd00::/8", "fd00::/16", "::/0", "::/64", "2001:db8::1/128", "2001:db8:1::/64"}
 
 func c18Gen(t *rapid.T) c18Case {
 	c := c18Case{RunPath: rapid.IntRange(0, 2).Draw(t, "runpath") == 0,
 		StartS: rapid.Int64Range(0, 4102444800).Draw(t, "start"), StartNS: rapid.Int64Range(0, 999999999).Draw(t, "startns")}
+	if c.RunPath && rapid.IntRange(0, 2).Draw(t, "slowconsumer") == 0 {
+		c.ConsumerNS = rapid.SampledFrom([]int64{int64(time.Millisecond), int64(time.Second), int64(3 * time.Second)}).Draw(t, "consumer")
+	}
 	at := int64(0)
 	for i, n := 0, rapid.IntRange(1, 16).Draw(t, "nmsgs"); i < n; i++ {
 		at += rapid.SampledFrom([]int64{0, 1, 999999999, int64(time.Second), int64(time.Hour)}).Draw(t, "gap")
